@@ -104,6 +104,16 @@ TEXT = {
   "note": "Lean kernel; model/code correspondence sampled by this run's campaign (pending-patch clean-up with a last good patch present, re-installs, damage).",
   "technique": "Lean 4 theorem (inductive invariants over all histories) + differential correspondence check",
  },
+ "C18": {
+  "level": "Theorem C18_holds: for every admissible history the C18 monitor accepts the model trace - (1) from a launch start that handed n to the engine, the "
+           "recorded and reported current patch is n after every later call of that process (installs, checks, rollbacks of other patches, the success report, damage "
+           "elsewhere) until the launch is reported failed, n is rolled back / re-issued / damaged, the release changes or the process ends; (2) after a restart and "
+           "before the next launch start current_boot_patch reports the last good patch (0 if none); (3) a launch start records the patch it selected as booting. "
+           "Invariants RunD (current record + validity of every record of n), BootSub (only a launch start sets the booting record) and the C03 invariants.",
+  "design_ref": "DESIGN.md section 3, C18",
+  "note": "Lean kernel; model/code correspondence sampled by this run's campaign (updates completing between launch start and success, several installs per run).",
+  "technique": "Lean 4 theorem (inductive invariants over all histories) + differential correspondence check",
+ },
  "C09": {
   "level": "Theorem C09_holds: for every history whose effective inits configure one public key, the C09 monitor accepts the model trace - after an update "
            "reports n installed, n is the next-boot patch (installed_is_next, every disk); and once every record of number n matches the artifact in place, n stays "
